@@ -25,7 +25,15 @@ R(ok, end, val, em, fl) == [ok |-> ok, end |-> end, val |-> val, em |-> em, fl |
 Fail(fl) == R(FALSE, 0, VU, <<>>, fl)
 
 XTok(X, i) == IF i < Len(X.toks) THEN X.toks[i + 1] ELSE ""
-XSpan(X, i, j) == <<X.offs[i + 1], X.offs[j + 1]>>
+(* the span of the tokens between positions i and j: from the start of the first to the end  *)
+(* of the last; an empty match gets an empty span lying just before the following token (C07) *)
+XGapped(X) == X.kind \in {"mapped", "mstream", "iter"}
+XSpan(X, i, j) ==
+  IF ~XGapped(X) THEN <<X.offs[i + 1], X.offs[j + 1]>>
+  ELSE LET n == Len(X.toks) IN
+       IF i = n THEN <<3 * n, 3 * n>>
+       ELSE IF j > i THEN <<3 * i + 1, 3 * j - 1>>
+       ELSE <<3 * i + 1, 3 * i + 1>>
 
 (* a failure event: expected-found error at token position pos *)
 (* rd: the reading under which the event counts -- "any", or "start"/"end" for a semantic     *)
@@ -82,6 +90,31 @@ DRep(a, lo, hi, X, p, c, env, n) ==
        ELSE LET rest == DRep(a, lo, hi, X, r.end, c, env, n + 1) IN
             IF ~rest.ok THEN Fail(r.fl \cup rest.fl)
             ELSE R(TRUE, rest.end, <<r.val>> \o rest.val, r.em \o rest.em, r.fl \cup rest.fl)
+
+(* the same repetition, remembering where each item started and ended: val = <<v, start, end>> *)
+RECURSIVE DRepP(_, _, _, _, _, _, _, _)
+DRepP(a, lo, hi, X, p, c, env, n) ==
+  IF ~LtHi(n, hi) THEN R(TRUE, p, <<>>, <<>>, {})
+  ELSE LET r == D(a, X, p, c, env) IN
+       IF ~r.ok THEN (IF n >= lo THEN R(TRUE, p, <<>>, <<>>, r.fl) ELSE Fail(r.fl))
+       ELSE LET rest == DRepP(a, lo, hi, X, r.end, c, env, n + 1) IN
+            IF ~rest.ok THEN Fail(r.fl \cup rest.fl)
+            ELSE R(TRUE, rest.end, <<<<r.val, p, r.end>>>> \o rest.val, r.em \o rest.em, r.fl \cup rest.fl)
+
+(* foldl_with / foldr_with over a plain repetition: the span handed to the folder covers the   *)
+(* sub-expression being built (C07)                                                            *)
+RECURSIVE DFoldLW(_, _, _, _, _, _)
+DFoldLW(fn, acc, items, X, p0, c) ==
+  IF items = <<>> THEN acc
+  ELSE LET it == Head(items)
+           sp == XSpan(X, p0, it[3])
+       IN DFoldLW(fn, VW(VF(fn, acc, it[1]), sp[1], sp[2], c, it[3]), Tail(items), X, p0, c)
+RECURSIVE DFoldRW(_, _, _, _, _, _)
+DFoldRW(fn, items, acc, X, pend, c) ==
+  IF items = <<>> THEN acc
+  ELSE LET it == Head(items)
+           sp == XSpan(X, it[2], pend)
+       IN VW(VF(fn, it[1], DFoldRW(fn, Tail(items), acc, X, pend, c)), sp[1], sp[2], c, pend)
 
 (* separated_by: it = <<"sep", item, sep, lo, hi, lead, trail>>            *)
 (* A separator is consumed only between two accepted items, or before the  *)
@@ -242,6 +275,19 @@ D(g, X, p, c, env) ==
          ELSE LET r == DIter(g[3], X, un.end, c, env) IN
               IF ~r.ok THEN Fail(un.fl \cup r.fl)
               ELSE R(TRUE, r.end, FoldL(g[4], un.val, r.val), un.em \o r.em, un.fl \cup r.fl)
+    [] o = "foldlw" ->
+         IF ~un.ok THEN un
+         ELSE LET it == g[3]
+                  r == DRepP(it[2], it[3], it[4], X, un.end, c, env, 0)
+              IN IF ~r.ok THEN Fail(un.fl \cup r.fl)
+                 ELSE R(TRUE, r.end, DFoldLW(g[4], un.val, r.val, X, p, c), un.em \o r.em, un.fl \cup r.fl)
+    [] o = "foldrw" ->
+         LET it == g[2]
+             r == DRepP(it[2], it[3], it[4], X, p, c, env, 0)
+         IN IF ~r.ok THEN r
+            ELSE LET rb == D(g[3], X, r.end, c, env) IN
+                 IF ~rb.ok THEN Fail(r.fl \cup rb.fl)
+                 ELSE R(TRUE, rb.end, DFoldRW(g[4], r.val, rb.val, X, rb.end, c), r.em \o rb.em, r.fl \cup rb.fl)
     [] o = "foldr" ->
          LET r == DIter(g[2], X, p, c, env) IN
          IF ~r.ok THEN r
